@@ -54,6 +54,8 @@ MockCheckedActualCall::MockCheckedActualCall(unsigned int callOrder, MockFailure
       allExpectations_(allExpectations), outputParameterExpectations_(NULLPTR)
 {
     potentiallyMatchingExpectations_.addPotentiallyMatchingExpectations(allExpectations);
+    /* an expectation pruned from the candidates of an earlier call still carries what that call passed to it */
+    potentiallyMatchingExpectations_.resetActualCallMatchingState();
 }
 
 MockCheckedActualCall::~MockCheckedActualCall()
